@@ -31,10 +31,11 @@ func init() {
 var c02Patterns = []string{"_a_b", "_a_b_c", "_a_c", "a_b", "abc", "_zz_unused", "_a_*", "_a_b_*", "_a_b_c_*", "a_*", "_ab_*", "_x_*", "a_b_*", "*", "_a*", "a_*_b"}
 
 type c02Case struct {
-	Loggers []string `json:"logger_tags"`                 // tags attribute of logger l0, l1, ...
-	Root    string   `json:"root"`                        // "none" | "plain" | "tags"
-	ViaProp bool     `json:"tags_via_property,omitempty"` // every tag list is given as ${property} instead of literally
-	Levels  []string `json:"logger_levels,omitempty"`     // level attribute of logger l0, l1, ... ("" = not set): routing and the error rules do not depend on it
+	Loggers  []string `json:"logger_tags"`                 // tags attribute of logger l0, l1, ...
+	Root     string   `json:"root"`                        // "none" | "plain" | "tags"
+	ViaProp  bool     `json:"tags_via_property,omitempty"` // every tag list is given as ${property} instead of literally
+	BadStart bool     `json:"l0_cannot_start,omitempty"`   // logger l0 is an AsyncLogger whose Start fails (bufferSize below the minimum): Refresh fails - or, if it succeeds, routes as configured
+	Levels   []string `json:"logger_levels,omitempty"`     // level attribute of logger l0, l1, ... ("" = not set): routing and the error rules do not depend on it
 }
 
 // refRoute returns the serving logger name ("l0".., "root" or "console") per tag, or an error.
@@ -130,6 +131,12 @@ func init() {
 					yield(c02Case{Loggers: []string{a}, Root: "plain", Levels: []string{lv}})
 				}
 			}
+			// a non-root logger that cannot start: no "successful Refresh" may route its tags elsewhere
+			for _, a := range lists {
+				for _, b := range c02Patterns {
+					yield(c02Case{Loggers: []string{a, b}, Root: roots[len(b)%2], BadStart: true})
+				}
+			}
 			single := c02Patterns
 			for _, a := range single {
 				for _, b := range single {
@@ -173,6 +180,10 @@ func init() {
 				conf["appender.r"+n+".type"] = "Rec"
 				conf["logger."+n+".type"] = "Logger"
 				conf["logger."+n+".appenderRef.ref"] = "r" + n
+				if c.BadStart && i == 0 {
+					conf["logger."+n+".type"] = "AsyncLogger"
+					conf["logger."+n+".bufferSize"] = "50"
+				}
 				if i < len(c.Levels) && c.Levels[i] != "" {
 					conf["logger."+n+".level"] = c.Levels[i]
 				}
@@ -201,6 +212,20 @@ func init() {
 				key += " (tag lists through ${properties}; a named handle exists for logger l0)"
 				// the rules are about the configuration: a handle obtained for a logger's name does not excuse it from listing tags
 				safeCall(func() { log.GetLogger("l0") })
+				// ... and the application has listed the tags and reused the list it got (in-place filter idiom): the list is
+				// the caller's, the routing of the REGISTERED tags does not depend on what happens to it
+				if l := log.GetAllTags(); len(l) > 0 {
+					keep := l[:0]
+					for _, t := range l {
+						if strings.HasPrefix(t, "zz") {
+							keep = append(keep, t)
+						}
+					}
+					for i := range l {
+						l[i] = "gone"
+					}
+					_ = keep
+				}
 			}
 			// excluded: the empty-prefix wildcard "_*" and inner-'*' patterns that end in "_*"
 			want, ok := refRoute(c)
@@ -208,7 +233,15 @@ func init() {
 			if pn != nil {
 				return "panic", []Violation{{Clause: "refresh-panicked", Key: key, Detail: fmt.Sprint(pn)}}, 1
 			}
-			if ok != (err == nil) {
+			if c.BadStart {
+				key += " (l0 cannot start)"
+				if err != nil {
+					return "rejected", nil, 1 // the usual answer; a Refresh that succeeds nevertheless has to route as configured (below)
+				}
+				if !ok {
+					return "mismatch", []Violation{{Clause: "config-validity", Key: key, Detail: fmt.Sprintf("Refresh err=%v, the routing rules say valid=%v (%s)", err, ok, confString(conf))}}, 1
+				}
+			} else if ok != (err == nil) {
 				return "mismatch", []Violation{{Clause: "config-validity", Key: key, Detail: fmt.Sprintf("Refresh err=%v, the routing rules say valid=%v (%s)", err, ok, confString(conf))}}, 1
 			}
 			if !ok {
